@@ -24,7 +24,7 @@ Section Class.
     | FBoolean => exists b, e = VBool b
     | FBinary => exists b, e = VStr (base64_encode b)
     | FDate => exists s, e = VStr s /\ date_shape s
-    | FDateTime => exists t, e = VStr (time_Format LRFC3339 t)
+    | FDateTime => exists t, e = VStr (time_Format LRFC3339 t) /\ 0 <= time_Year t <= 9999
     | FTimestamp => exists z, e = VInt KInt64 z
     | FAuto | FHidden | FBad => True
     end.
@@ -78,7 +78,9 @@ Section Class.
     destruct x; cbn in K; try discriminate. eauto.
   Qed.
 
-  Lemma ToString_of_time t : ToString O (VTime t) = Ok (VStr (time_Format LRFC3339 t)).
+  Lemma ToString_of_time t :
+    ToString O (VTime t) = if (time_Year t <? 0) || (time_Year t >? 9999) then Err ErrUnableToCastToString
+                           else Ok (VStr (time_Format LRFC3339 t)).
   Proof. reflexivity. Qed.
 
   Lemma ToTimestamp_range v x : ToTimestamp O v = Ok x -> v <> VNil -> exists z, x = VInt KInt64 z.
@@ -118,7 +120,9 @@ Section Class.
     - (* datetime *)
       unfold lift, exportToDateTime, exportToDateTime_5, exportToDateTime_body in H.
       destruct (ToTime O (to_gval raw)) as [x| | |] eqn:E; try discriminate.
-      destruct (ToTime_is_time _ _ E Hv) as [t ->]. rewrite ToString_of_time in H. injection H as <-. eauto.
+      destruct (ToTime_is_time _ _ E Hv) as [t ->]. rewrite ToString_of_time in H.
+      destruct ((time_Year t <? 0) || (time_Year t >? 9999)) eqn:Ey; [discriminate|]. injection H as <-.
+      exists t. split; [reflexivity|]. apply orb_false_iff in Ey as [E1 E2]. apply Z.ltb_ge in E1. apply Z.gtb_ltb in E2 || (rewrite Z.gtb_ltb in E2). apply Z.ltb_ge in E2. lia.
     - (* timestamp *)
       unfold lift, exportToTimestamp, exportToTimestamp_5, exportToTimestamp_body in H.
       destruct (ToTimestamp O (to_gval raw)) as [x| | |] eqn:E; try discriminate. injection H as ->.
